@@ -28,7 +28,7 @@ pub fn prop() -> Prop {
             "framebuffer sizes are const generics, so a fixed list of sizes is instantiated",
             "the effect of a drawable on the model is taken from drawing it onto the unbounded recording target (pinned by C01) and keeping the points inside the framebuffer",
         ],
-        subs: vec![Sub::tape("histories", 220, 400_000, 20_000_000, histories)],
+        subs: vec![Sub::tape("histories", 700, 400_000, 20_000_000, histories)],
     }
 }
 
